@@ -37,6 +37,9 @@ type sCmd struct {
 	IgnoreErr bool `json:"ignore_err,omitempty"`
 	Deferred  bool `json:"deferred,omitempty"`
 	Var       int  `json:"var"` // value passed as V in a call (-1 = none)
+	// CallIgnore: `ignore_error: true` written on a `task:` command.  Task does not read that key on task
+	// calls (only on shell commands and on tasks), so it must change nothing: it is not part of the model's program.
+	CallIgnore bool `json:"call_ignore,omitempty"`
 }
 
 type sDep struct {
@@ -145,6 +148,9 @@ func renderSched(d schedCase) string {
 						fmt.Fprintf(&b, "      - task: %s\n        vars: {V: '%d'}\n", tname(c.Call), c.Var)
 					} else {
 						fmt.Fprintf(&b, "      - task: %s\n", tname(c.Call))
+					}
+					if c.CallIgnore {
+						b.WriteString("        ignore_error: true\n")
 					}
 				case c.Deferred:
 					fmt.Fprintf(&b, "      - defer: ': \"EC=[{{.EXIT_CODE}}]\"; exit %d'\n", c.Code)
@@ -545,6 +551,9 @@ func (c *Ctx) genSched(maxTasks int, cyclic bool) schedCase {
 				cm.IgnoreErr = false
 				cm.Var = -1
 			}
+			if cm.Call >= 0 && !cm.Deferred && r.Intn(4) == 0 {
+				cm.CallIgnore = true
+			}
 			t.Cmds = append(t.Cmds, cm)
 		}
 		d.Tasks = append(d.Tasks, t)
@@ -891,6 +900,41 @@ func dedupShapes(evs []verifhook.Event) (topOnIndirect, indirectOnTop bool) {
 	return
 }
 
+// genCallIgnore: `ignore_error: true` written on a `task:` command whose callee fails (directly,
+// one level down, or in a dependency of the callee): the key is not read on task calls, so the
+// caller must fail and start no later command.
+func (c *Ctx) genCallIgnore() schedCase {
+	r := c.Rng
+	d := schedCase{Cap: []int{0, 0, 2}[r.Intn(3)], Seed: r.Int63(), Calls: []int{0}}
+	mk := func() sTask {
+		return sTask{Run: "always", PlatformOk: true, RequiresOk: true, EnumOk: true, PrecondOk: true}
+	}
+	code := 1 + r.Intn(9)
+	t0 := mk()
+	if r.Intn(2) == 0 {
+		t0.Cmds = append(t0.Cmds, sCmd{Call: -1, Var: -1})
+	}
+	t0.Cmds = append(t0.Cmds, sCmd{Call: 1, Var: -1, CallIgnore: true}, sCmd{Call: -1, Var: -1})
+	t1 := mk()
+	switch r.Intn(3) {
+	case 0:
+		t1.Cmds = []sCmd{{Call: -1, Var: -1, Code: code}}
+		d.Tasks = []sTask{t0, t1}
+	case 1:
+		t1.Cmds = []sCmd{{Call: 2, Var: -1, CallIgnore: r.Intn(2) == 0}, {Call: -1, Var: -1}}
+		t2 := mk()
+		t2.Cmds = []sCmd{{Call: -1, Var: -1, Code: code}}
+		d.Tasks = []sTask{t0, t1, t2}
+	default:
+		t1.Deps = []sDep{{2, -1}}
+		t1.Cmds = []sCmd{{Call: -1, Var: -1}}
+		t2 := mk()
+		t2.Cmds = []sCmd{{Call: -1, Var: -1, Code: code}}
+		d.Tasks = []sTask{t0, t1, t2}
+	}
+	return d
+}
+
 func hasCycleThroughDedup(d schedCase) bool {
 	// is there a cycle in the call graph containing a once/when_changed task?
 	n := len(d.Tasks)
@@ -963,6 +1007,9 @@ func runSched(c *Ctx) {
 		} else if i%20 == 3 {
 			d = c.genFlaky()
 			c.Hit("flaky-defer")
+		} else if i%20 == 13 {
+			d = c.genCallIgnore()
+			c.Hit("ignore-error-on-task-call")
 		} else if i%10 == 5 {
 			d = c.genSharedFail()
 			c.Hit("stream:shared-fail")
